@@ -92,11 +92,21 @@ def subSpec (u0 : TU K) (x0 : K) (u1 : TU K) (x1 : K) (r : TU K × K) : Prop :=
 
 end
 
-/-- two units are *different offset scales*: both are points and they are not the same unit
-    (different symbol, or different prefix symbol) -/
-def differentOffsetScales {K : Type} (u0 u1 : TU K) : Bool :=
+/-- two units are *different offset scales*: both are points and their scales differ in the size
+    of the degree or in the position of the zero -/
+def differentOffsetScales {K : Type} [Add K] [Sub K] [Mul K] [Div K] [Neg K] [BEq K]
+    [OfNat K 0] [OfNat K 1] [OfNat K 5] [OfNat K 9] [OfNat K 100] [OfNat K 27315] [OfNat K 45967]
+    (u0 u1 : TU K) : Bool :=
   kind u0.base == .point && kind u1.base == .point &&
-    !(u0.base == u1.base && (u0.pre.map (·.sym)) == (u1.pre.map (·.sym)))
+    !(absK u0 0 == absK u1 0 && absK u0 1 == absK u1 1)
+
+/-- an operand of `*`, `/`, `**`, `sqrt` … that sits on an offset scale -/
+def onOffsetScale {K : Type} (u : TU K) : Bool := kind u.base == .point
+
+/-- an operand of `*` / `/` that is a temperature quantity on an offset scale -/
+def opndOnOffsetScale {K : Type} : Opnd K → Bool
+  | .temp u => onOffsetScale u
+  | _ => false
 
 /-- the unit rule each ufunc must be registered with for the temperature semantics to apply -/
 def ruleClass : List (String × String) :=
